@@ -917,8 +917,57 @@ struct DriverT {
     }
   }
 
+  // slot churn inside one node of every class: fill it to (almost) capacity, then remove
+  // children inserted early / late and insert new key bytes, repeatedly; also reaches the
+  // full inode_48 that a 256->48 shrink creates.  Directed at the free-slot search of
+  // inode_48 and the sorted-array shifts of inode_4/16.
+  void gen_slots() {
+    const std::size_t len = kIsKv ? 3 + rng.below(6) : 8;
+    const std::size_t depth = rng.below(len);
+    Bytes base(len);
+    for (auto& b : base) b = static_cast<std::uint8_t>(rng.below(256));
+    static const int fills[] = {4, 16, 44, 48, 48, 52};
+    const int fill = fills[rng.below(6)];
+    std::vector<int> order(256);
+    for (int i = 0; i < 256; ++i) order[static_cast<std::size_t>(i)] = i;
+    for (std::size_t i = 255; i > 0; --i) std::swap(order[i], order[rng.below(i + 1)]);
+    std::vector<Bytes> in;
+    std::size_t nexti = 0;
+    auto key_of = [&](int b) {
+      Bytes k = base;
+      k[depth] = static_cast<std::uint8_t>(b);
+      return k;
+    };
+    for (int i = 0; i < fill; ++i) {
+      in.push_back(key_of(order[nexti++]));
+      try_insert(in.back());
+    }
+    if (fill > 48) {  // back to a full inode_48 through the 256 -> 48 shrink
+      while (in.size() > 48) {
+        try_remove(in.back());
+        in.pop_back();
+      }
+    }
+    for (int round = 0; round < 12; ++round) {
+      const auto nrem = 1 + rng.below(3);
+      for (std::uint64_t j = 0; j < nrem && in.size() > 2; ++j) {
+        // early-inserted children sit in the low slots
+        const std::size_t idx = rng.chance(70) ? rng.below(std::min<std::size_t>(in.size(), 8)) : rng.below(in.size());
+        try_remove(in[idx]);
+        in.erase(in.begin() + static_cast<long>(idx));
+      }
+      const auto nins = 1 + rng.below(3);
+      for (std::uint64_t j = 0; j < nins && nexti < 256 && static_cast<int>(in.size()) < std::min(fill, 48); ++j) {
+        in.push_back(key_of(order[nexti++]));
+        try_insert(in.back());
+      }
+      if (round % 4 == 3) do_scans(6);
+    }
+    for (const auto& k : in) do_get(k);
+  }
+
   void run_history(int which, long nops) {
-    static const char* names[] = {"dense", "sparse", "deep", "words", "walker", "clear", "tiny"};
+    static const char* names[] = {"dense", "sparse", "deep", "words", "walker", "clear", "tiny", "slots"};
     reset(names[which]);
     switch (which) {
       case 0: gen_dense(nops); break;
@@ -927,6 +976,7 @@ struct DriverT {
       case 3: gen_words(nops); break;
       case 4: gen_walker(thorough ? (rng.chance(50) ? 256 : 60) : (rng.chance(25) ? 52 : 20)); break;
       case 5: gen_clear_reuse(nops); break;
+      case 7: gen_slots(); break;
       default: gen_tiny(); break;
     }
     // final sweep: get of every key in the pool happened during mix; finish with a drain
@@ -1025,7 +1075,7 @@ int main(int argc, char** argv) {
       std::fclose(in);
     } else {
       for (long h = 0; h < histories; ++h) {
-        d.run_history(static_cast<int>(h % 7), nops);
+        d.run_history(static_cast<int>(h % 8), nops);
         if (faults) d.do_length_errors();
       }
     }
